@@ -40,6 +40,11 @@ func v36Payload(seed int64, n int) []byte {
 	b := make([]byte, n)
 	r := rand.New(rand.NewSource(seed))
 	_, _ = r.Read(b)
+	for i := range b {
+		if b[i] == 0 { // never a zero byte: preallocated (zero) blocks can then never pass for content
+			b[i] = 0xa5
+		}
+	}
 	return b
 }
 
